@@ -385,7 +385,13 @@ def main():
         cov["broken"] = broken
     ev = dict(property_id=pid, tier=tier, seed=seed, level="exploration", coverage=cov,
               assumptions=ASSUMPTIONS["*"] + ASSUMPTIONS.get(pid, []), wall_s=round(wall, 2), violations=nviol)
-    evp = os.path.join(VERIF, "evidence", pid + ".json")
+    evdir = os.path.join(VERIF, "evidence")
+    if os.environ.get("VERIF_ONLY") or os.environ.get("VERIF_SCRATCH_EVIDENCE"):
+        # partial / experimental runs (one job only, runs against a deliberately broken tree) must not replace
+        # the evidence of the registered check
+        evdir = os.path.join(VERIF, ".work", "evidence-scratch")
+        os.makedirs(evdir, exist_ok=True)
+    evp = os.path.join(evdir, pid + ".json")
     tmp = evp + ".tmp"
     json.dump(ev, open(tmp, "w"), indent=1, default=str)
     os.replace(tmp, evp)
